@@ -328,6 +328,7 @@ def _reduce_for_listener_element(prog, body, elem):
     """the loop body specialised for `elem` being an EventListener object: tests on it (and on locals that are copies of it) that this decides are
     spliced; returns the new statement list, or None when a statement kind is not handled"""
     listener_classes = {c for c in prog.classes if any(k in ('EventListener', 'EventListenerInterface') for k in prog.mro(c))} | {'object'}
+    co_bases = {k for c in listener_classes if c in prog.classes for k in prog.mro(c)}
     alias = {elem}
 
     def decide(t):
@@ -349,8 +350,12 @@ def _reduce_for_listener_element(prog, body, elem):
             tn = [unparse(x).split('.')[-1] for x in (t.args[1].elts if isinstance(t.args[1], ast.Tuple) else [t.args[1]])]
             if any(x in ('EventListener', 'EventListenerInterface', 'object') for x in tn):
                 return True
-            if not any(x in listener_classes for x in tn):
-                return False                     # a class outside the listener hierarchy (weakref.ref, type, str, ..): a plain listener is none of them
+            # classes no listener object can be an instance of: builtins / weak references, and program classes that no listener class derives from
+            # (a listener may well be an EventProducer too: that test is not decided)
+            foreign = {'ref', 'ReferenceType', 'WeakMethod', 'ProxyType', 'CallableProxyType', 'type', 'str', 'int', 'float', 'bool', 'bytes', 'dict', 'list',
+                       'tuple', 'set', 'frozenset'}
+            if all(x in foreign or (x in prog.classes and x not in co_bases) for x in tn):
+                return False
         if isinstance(t, ast.Name) and t.id in alias:
             return None                          # truthiness of a listener object: user-defined
         return None
